@@ -998,6 +998,116 @@ func resolverSites(repo string) {
 	out.WriteString("def resolverSites : List (String × String × String × List String × String) := [\n" + strings.Join(rows, ",\n") + "]\n\n")
 }
 
+// ---------------------------------------------------------------- the control flow of a run (C10)
+
+// mainFlow lists, in source order, what `mainImplementation` does that matters for
+// all-or-nothing reporting: returns of an error, `return nil`, writes to `stdout`, the scan. Each
+// event carries its branch path: "i<k>t" / "i<k>e" for the then / else block of the k-th `if`,
+// "s<k>c<j>" for case j of the k-th switch, "f<k>" for the body of the k-th loop.
+func mainFlow(repo string) {
+	f := parse(filepath.Join(repo, "git-sizer.go"))
+	fn := findFunc(f, "", "mainImplementation")
+	if fn == nil {
+		die(f.Pos(), "mainImplementation not found")
+	}
+	var rows []string
+	counter := 0
+	add := func(kind, detail string, path []string) {
+		var comps []string
+		for _, c := range path {
+			kv := strings.SplitN(c, ":", 2)
+			comps = append(comps, fmt.Sprintf("(%s, %s)", q(kv[0]), q(kv[1])))
+		}
+		rows = append(rows, fmt.Sprintf("  (%s, %s, [%s])", q(kind), q(detail), strings.Join(comps, ", ")))
+	}
+	mentionsStdout := func(n ast.Node) bool {
+		found := false
+		ast.Inspect(n, func(m ast.Node) bool {
+			if _, ok := m.(*ast.FuncLit); ok {
+				return false
+			}
+			if c, ok := m.(*ast.CallExpr); ok {
+				for _, a := range c.Args {
+					if id, ok := a.(*ast.Ident); ok && id.Name == "stdout" {
+						found = true
+					}
+				}
+			}
+			return true
+		})
+		return found
+	}
+	callsScan := func(n ast.Node) bool {
+		found := false
+		ast.Inspect(n, func(m ast.Node) bool {
+			if c, ok := m.(*ast.CallExpr); ok {
+				if sel, ok := c.Fun.(*ast.SelectorExpr); ok && sel.Sel.Name == "ScanRepositoryUsingGraph" {
+					found = true
+				}
+			}
+			return true
+		})
+		return found
+	}
+	var walk func(stmts []ast.Stmt, path []string)
+	simple := func(st ast.Stmt, path []string) {
+		if callsScan(st) {
+			add("scan", "", path)
+		}
+		if mentionsStdout(st) {
+			add("stdout", "", path)
+		}
+	}
+	walk = func(stmts []ast.Stmt, path []string) {
+		for _, st := range stmts {
+			switch t := st.(type) {
+			case *ast.ReturnStmt:
+				if len(t.Results) == 1 {
+					if id, ok := t.Results[0].(*ast.Ident); ok && id.Name == "nil" {
+						add("ret-nil", "", path)
+					} else {
+						add("ret-err", srcText(t.Results[0]), path)
+					}
+				}
+			case *ast.IfStmt:
+				counter++
+				k := counter
+				if t.Init != nil {
+					simple(t.Init, path)
+				}
+				cond := srcText(t.Cond)
+				add("if", cond, append(append([]string{}, path...), fmt.Sprintf("i%d:", k)))
+				walk(t.Body.List, append(append([]string{}, path...), fmt.Sprintf("i%d:t", k)))
+				switch e := t.Else.(type) {
+				case *ast.BlockStmt:
+					walk(e.List, append(append([]string{}, path...), fmt.Sprintf("i%d:e", k)))
+				case *ast.IfStmt:
+					walk([]ast.Stmt{e}, append(append([]string{}, path...), fmt.Sprintf("i%d:e", k)))
+				}
+			case *ast.SwitchStmt:
+				counter++
+				k := counter
+				for j, c := range t.Body.List {
+					walk(c.(*ast.CaseClause).Body, append(append([]string{}, path...), fmt.Sprintf("s%d:c%d", k, j)))
+				}
+			case *ast.ForStmt:
+				counter++
+				walk(t.Body.List, append(append([]string{}, path...), fmt.Sprintf("f%d:loop", counter)))
+			case *ast.RangeStmt:
+				counter++
+				walk(t.Body.List, append(append([]string{}, path...), fmt.Sprintf("f%d:loop", counter)))
+			case *ast.BlockStmt:
+				walk(t.List, path)
+			default:
+				simple(st, path)
+			}
+		}
+	}
+	walk(fn.Body.List, nil)
+	out.WriteString("/-- mainImplementation in source order: (event, detail, branch path as (statement id, branch)) -/\n")
+	out.WriteString("def mainFlow : List (String × String × List (String × String)) := [\n" + strings.Join(rows, ",\n") + "]\n\n")
+}
+
 func main() {
 	if len(os.Args) != 3 {
 		fmt.Fprintln(os.Stderr, "usage: gofacts <repo> <outdir>")
@@ -1020,6 +1130,7 @@ func main() {
 	closeSites(repo)
 	scanPhases(repo)
 	resolverSites(repo)
+	mainFlow(repo)
 	out.WriteString("end Gen.Cmds\n")
 	if err := os.WriteFile(filepath.Join(outdir, "Cmds.lean"), []byte(out.String()), 0o644); err != nil {
 		panic(err)
